@@ -123,7 +123,7 @@ std::string propRebuild(const FmmCase& c0, const std::string& prop){
             auto it = perLeaf.find(T);
             if(it == perLeaf.end()){
                 gf::Val v = gf::zero();
-                if(H > lstop) gf::addPlain(v, ex.local(H - 1, T, lstop));
+                if(H > lstop) gf::addPlain(v, ex.farAtLeaf(T, lstop));
                 gf::addPlain(v, ex.nearField(T, -1));
                 it = perLeaf.emplace(T, v).first;
             }
@@ -230,6 +230,7 @@ int main(int argc, char** argv){
     if(a.prop.empty()){ std::cerr << "usage: --prop C13 ...\n"; return 2; }
     const std::string prop = a.prop;
     pbt::GenCfg g; g.dim = Dim; g.real = RealCode; g.cycles = true; g.maxCycles = 4; g.maxNextra = NX; g.autoBlock = true;
+    if(a.prop == "C15" || a.prop == "C13" || a.prop == "C07") g.emptySets = true;
     g.variants = (prop == "C19") ? 2 : 1;     // C19: with and without rebuild
 #if EXEC == 1
     g.schedules = true; g.executors = 2;
